@@ -1348,7 +1348,12 @@ def own_zone_trees(ctx):
                 inp = {'witness': 'own-zone', 'provider': prov, 'tzid': tzid.decode()}
                 ctx.evaluated(('own-zone', prov, tzid))
                 vtz = Calendar.from_ical(OWN_ZONE % (tzid, tzid)).walk('VTIMEZONE')[0]
+                for obs in vtz.subcomponents:
+                    obs.add('x-api-note', 'added through the API')         # X- properties inside the observances
+                vtz.add('x-api-zone-note', 'n')
                 names_before = sorted((c.name, k) for c in vtz.walk() for k in c.keys())
+                if sum(1 for _, k in names_before if k == 'X-API-NOTE') != 2:
+                    ctx.violation('own-zone-properties', inp, f'add() on the observances did not store the properties: {names_before}')
                 getattr(icalendar, 'use_' + prov)()          # the provider forgets the zone; the API builds it again
                 tz = vtz.to_tz()
                 cal = Calendar()
